@@ -138,6 +138,11 @@ def drivers():
         ("exp-reduce", lambda: (tij.log() + x).exp().reduce(ops.add, "j")),
         ("contraction-to-integrate", lambda: ((tij.log() + x).exp() * tj).reduce(ops.add, "j")),
         ("independent-delta", lambda: Independent(Delta("x_i", Tensor(A(53, (2,)), OrderedDict(i=Bint[2])), Number(0.0)), "x", "i", "x_i")),
+        # substitutions mixing the Delta's own (fresh) name with a batch input of its point / log-density
+        ("delta-subs-fresh+batch", lambda: dx()(x=Tensor(A(40, (2,)), OrderedDict(i=Bint[2])), i=1)),
+        ("delta-subs-rename+batch", lambda: dx()(x="z", i=1)),
+        ("delta-subs-batch", lambda: dx()(i=0)),
+        ("delta-subs-fresh+batch-var", lambda: dx()(x=Tensor(A(54, ())), i="k")),
     ]
     return out
 
